@@ -97,6 +97,14 @@ class ProgGen:
     def str_lit(self, data=None):
         """a spelling of a string literal; returns E"""
         if data is None:
+            if self.r() < 0.1:
+                # an escape-rich literal in the quoted or the triple-quoted form
+                body = ''.join(self.pick(ESC_ASCII + ['a', ' ', 'Z']) for _ in range(self.rng.randint(1, 4)))
+                if self.r() < 0.5:
+                    return E("'" + body + "'", 8, False, len(body) + 2)
+                if body.endswith("'"):
+                    body += 'z'
+                return E(TQ + body + TQ, 8, False, len(body) + 2)
             data = self.str_data()
         k = self.r()
         if k < 0.12 and TQ not in data and not data.endswith("'") and '\\' not in data:
@@ -392,8 +400,12 @@ class ProgGen:
                     sz += 4 * env[nm][2] + 4
                 elif self.r() < 0.4:
                     parts.append(self.pick(['@', '@@', '@0@', '@1x', '@ @']))
+                if self.r() < 0.35:
+                    parts.append(self.pick(ESC_ASCII))
             body = ''.join(parts)
-            if self.r() < 0.2:
+            if self.r() < 0.35:
+                if body.endswith("'"):
+                    body += 'z'
                 return E('f' + TQ + body + TQ, 8, False, len(body) + sz)
             return E("f'%s'" % body, 8, False, len(body) + sz)
         if k == 15 and vs:
@@ -664,11 +676,12 @@ class ProgGen:
                 lines += self.msg(self.var(env, name), ind, mult)
         return lines
 
-    def program(self, nstmts, err=None):
-        """-> files dict.  err: lines of an erroneous statement injected at a random point"""
+    def program(self, nstmts, err=None, at_end=False):
+        """-> files dict.  err: lines of an erroneous statement injected at a random point (at_end:
+        after the last statement of the root file)"""
         self.err = err
         self.err_done = False
-        self.err_p = (2.5 / max(nstmts, 1)) if err is not None else 0
+        self.err_p = (2.5 / max(nstmts, 1)) if (err is not None and not at_end) else 0
         env = {}
         lines = ["project('p')"]
         for _ in range(nstmts):
@@ -1146,6 +1159,12 @@ def decode_ref(body):
                 break
         if done:
             continue
+        if x == 'N' and body[i + 2:i + 3] == '{' and '}' in body[i + 4:]:
+            j = body.index('}', i + 4)
+            import unicodedata
+            out.append(unicodedata.lookup(body[i + 3:j]))
+            i = j + 1
+            continue
         if x in '01234567':
             j = i + 1
             while j < len(body) and j < i + 4 and body[j] in '01234567':
@@ -1160,6 +1179,111 @@ def decode_ref(body):
         out.append(c)
         i += 1
     return ''.join(out)
+
+
+# every escape kind the reference lists, unknown escapes, truncated escapes
+ESC_ATOMS = ['\\\\', "\\'", '\\a', '\\b', '\\f', '\\n', '\\r', '\\t', '\\v', '\\7', '\\101', '\\1234', '\\x41', '\\x7e', '\\xe9',
+             '\\u00e9', '\\u20ac', '\\U0001F600', '\\q', '\\8', '\\x4', '\\u12', '\\U0001', '\\ ', '\\@', '\\x40', '\\100']
+ESC_ASCII = [a for a in ESC_ATOMS if a not in ('\\xe9', '\\u00e9', '\\u20ac', '\\U0001F600', '\\1234')]
+PLAIN_ATOMS = ['a', 'Z', ' ', '0', '%', '-', '@', '@@', 'who', '0@']
+FSTR_ATOMS = ['@who@', '@n@', '@who', '\\x40who@', '@who\\x40', '@0@']
+FORMS = ['s', 'm', 'fs', 'fm']       # '...'  '''...'''  f'...'  f'''...'''
+STR_VARS = {'who': 'X', 'n': 7}
+
+
+def string_form_case(rng, named=False):
+    """-> (form, body): one string literal in one of the four forms with escapes of every kind"""
+    form = rng.choice(FORMS)
+    atoms = []
+    for _ in range(rng.randint(1, 6)):
+        k = rng.random()
+        if k < 0.55:
+            atoms.append(rng.choice(ESC_ATOMS))
+        elif k < 0.75:
+            atoms.append(rng.choice(PLAIN_ATOMS))
+        elif form in ('fs', 'fm') or k < 0.85:
+            atoms.append(rng.choice(FSTR_ATOMS))
+        elif form in ('m', 'fm'):
+            atoms.append(rng.choice(['\n', '\\\n', '\t', "'", "''"]))     # raw newline, backslash-newline, lone quotes
+        else:
+            atoms.append(rng.choice(PLAIN_ATOMS))
+    if named and rng.random() < 0.3:
+        atoms.insert(rng.randint(0, len(atoms)), rng.choice(['\\N{LATIN SMALL LETTER A}', '\\N{EURO SIGN}', '\\N{DIGIT ONE}']))
+    body = ''.join(atoms)
+    if form in ('m', 'fm'):
+        while TQ in body:
+            body = body.replace(TQ, "''z")
+        if body.endswith("'"):
+            body += 'z'
+    return form, body
+
+
+def literal_text(form, body):
+    if form == 's':
+        return "'" + body + "'"
+    if form == 'fs':
+        return "f'" + body + "'"
+    if form == 'm':
+        return TQ + body + TQ
+    return 'f' + TQ + body + TQ
+
+
+def literal_value_ref(form, body):
+    """the reference: escapes are decoded in '...' and f'...', never in the triple-quoted forms;
+    @name@ of an f-string is replaced afterwards, in the resulting value"""
+    import re
+    v = decode_ref(body) if form in ('s', 'fs') else body
+    if form in ('fs', 'fm'):
+        v = re.sub(r'@([_a-zA-Z][_0-9a-zA-Z]*)@', lambda m: py_str(STR_VARS[m.group(1)]) if m.group(1) in STR_VARS else None, v) \
+            if all(g in STR_VARS for g in re.findall(r'@([_a-zA-Z][_0-9a-zA-Z]*)@', _nonoverlap(v))) else None
+    return v
+
+
+def _nonoverlap(v):
+    return v
+
+
+def py_str(x):
+    return ('true' if x else 'false') if isinstance(x, bool) else str(x)
+
+
+def string_form_statements(rng, n, named=False):
+    """-> list of (expression text, expected python value): the literal itself, its number of
+    backslashes counted in-language, the literal as a dict key and as a format() template"""
+    import re
+    out = []
+    while len(out) < n:
+        form, body = string_form_case(rng, named)
+        v = literal_value_ref(form, body)
+        if v is None:
+            continue                      # refers to an undefined variable
+        lit = literal_text(form, body)
+        out.append((lit, v))
+        out.append(("%s.split('\\\\').length() - 1" % lit, v.count('\\')))
+        k = rng.random()
+        if k < 0.25:
+            out.append(('{%s: 1}.keys()' % lit, [v]))
+        elif k < 0.5:
+            out.append(("{'k': %s}['k'] == %s" % (lit, lit), True))
+        elif k < 0.75 and form in ('s', 'm'):
+            try:
+                fv = re.sub(r'@(\d+)@', lambda m: ['A', 'true'][int(m.group(1))], v)
+            except IndexError:
+                continue
+            out.append(("%s.format('A', true)" % lit, fv))
+        elif form in ('s', 'fs'):
+            out.append(("%s.contains('\\\\')" % lit, '\\' in v))
+    return out
+
+
+def string_form_project(stmts):
+    lines = ["who = 'X'", 'n = 7']
+    vals = {}
+    for i, (txt, val) in enumerate(stmts):
+        tag = 's' + b36(i)
+        lines.append("message('#%s', %s, '$')" % (tag, txt))
+        vals[tag] = val
+    return P('\n'.join(lines) + '\n'), vals
 
 
 def laws(rng, thorough=False):
@@ -1229,6 +1353,11 @@ def laws(rng, thorough=False):
         if "'''" not in body and not body.endswith("'") and not body.endswith('\\'):
             esc.append(("'''%s'''" % body, body))
     values_law('escapes', esc)
+    # all four literal forms x every escape kind (+ @var@ interplay, dict keys, format templates,
+    # backslash counts computed in-language); \\N{...} only here (not in the model)
+    for k in range(6 if thorough else 2):
+        files, vals = string_form_project(string_form_statements(rng, 150, named=(k % 2 == 1)))
+        L.append({'law': 'string-forms-%d' % k, 'files': files, 'expect': {'kind': 'values', 'values': vals, 'exact': True}})
 
     # --- sorted keys, negative indexing, bounds
     ks = []
